@@ -360,7 +360,7 @@ pub struct FaultedCase {
     pub errno: i32,
 }
 
-const FAULT_ERRNOS: [i32; 6] = [libc::EINTR, libc::EAGAIN, libc::ENOMEM, libc::EMFILE, libc::EIO, libc::ENOSYS];
+const FAULT_ERRNOS: [i32; 8] = [libc::EINTR, libc::EAGAIN, libc::ENOMEM, libc::EMFILE, libc::EIO, libc::ENOSYS, libc::EACCES, libc::EPERM];
 
 pub fn faulted_child(case: &FaultedCase) -> (WReport, Option<String>) {
     use std::sync::atomic::{AtomicUsize, Ordering};
@@ -416,6 +416,95 @@ pub fn check_faulted(case: &FaultedCase, stats: &mut Stats) -> Result<(), Fail> 
     }
 }
 
+/// One directed call (the ones that do work: remove_all, creations, mkdir_all, rename,
+/// reopen …) with EVERY system call of its trace failing in turn with EACCES / EINTR /
+/// ENOMEM / EMFILE: recovery code that only runs after a particular failure is held to
+/// the discipline too.
+#[derive(Clone, Debug, serde::Serialize, serde::Deserialize)]
+pub struct EnumCase {
+    pub w: WCase,
+    #[serde(default)]
+    pub only: Option<(usize, i32)>,
+}
+
+const ENUM_ERRNOS: [i32; 4] = [libc::EACCES, libc::EINTR, libc::ENOMEM, libc::EMFILE];
+
+pub fn enum_child(case: &EnumCase) -> Vec<((usize, i32), WReport, Option<String>)> {
+    use std::sync::atomic::{AtomicUsize, Ordering};
+    use std::sync::Arc;
+    let plain = run_workload(&case.w, Policy { observe: true, kinds: false, ..Policy::default() }, "c05e0", false);
+    let n: usize = plain.steps.iter().filter_map(|s| s.call.as_ref()).map(|c| c.trace.len()).sum();
+    let mut faults: Vec<(usize, i32)> = match case.only {
+        Some(f) => vec![f],
+        None => (0..n).flat_map(|i| ENUM_ERRNOS.iter().map(move |e| (i, *e))).collect(),
+    };
+    // bounded work: an evenly spaced sample of at most 320 (index, errno) pairs
+    if faults.len() > 320 {
+        let total = faults.len();
+        faults = (0..320).map(|k| faults[k * total / 320]).collect();
+    }
+    let mut out = vec![];
+    for (target, errno) in faults {
+        let seen = Arc::new(AtomicUsize::new(0));
+        let hit: Arc<std::sync::Mutex<Option<String>>> = Arc::new(std::sync::Mutex::new(None));
+        let (seen2, hit2) = (seen.clone(), hit.clone());
+        let hook: Hook = Box::new(move |sys: &Sys, _c: &mut CallRec| {
+            let k = seen2.fetch_add(1, Ordering::SeqCst);
+            if k == target && !matches!(sys.name.as_str(), "close" | "dup" | "dup2" | "dup3") {
+                *hit2.lock().unwrap() = Some(sys.short());
+                return Action::Errno(errno);
+            }
+            Action::Continue
+        });
+        let policy = Policy { observe: true, kinds: true, check_cloexec: true, hook: Some(hook), ..Policy::default() };
+        let rep = run_workload(&case.w, policy, "c05e1", false);
+        let h = hit.lock().unwrap().clone();
+        out.push(((target, errno), rep, h));
+    }
+    out
+}
+
+pub fn check_enum(case: &EnumCase, stats: &mut Stats) -> Result<(), Fail> {
+    match run_in_child(300.0, || enum_child(case)) {
+        ChildOut::Ok(runs) => {
+            stats.count("enumerated_fault_scenarios", 1);
+            for ((target, errno), rep, hit) in runs {
+                if hit.is_some() {
+                    stats.class(&format!("enumerated-fault:{}", errno_name(errno)));
+                }
+                if let Err(f) = judge(&case.w, &rep, stats) {
+                    return Err(match f {
+                        Fail::Violation(mut v) => {
+                            v.check = "discipline-under-enumerated-faults".into();
+                            v.signature = format!("{}:after-fault", v.signature);
+                            v.message = format!("{}\n  with one failing system call (#{}): {} =! {}", v.message, target, hit.clone().unwrap_or_default(), errno_name(errno));
+                            let mut single = case.clone();
+                            single.only = Some((target, errno));
+                            v.case = serde_json::to_value(&single).unwrap();
+                            Fail::Violation(v)
+                        }
+                        other => other,
+                    });
+                }
+            }
+            Ok(())
+        }
+        ChildOut::Crashed { sig } => Err(Fail::Harness(format!("child died with signal {} (not a C05 matter)", sig))),
+        ChildOut::Exit { code, stderr_hint } => Err(Fail::Harness(format!("child exit {}: {}", code, stderr_hint))),
+        ChildOut::Timeout => Err(Fail::Harness("child timed out".into())),
+    }
+}
+
+fn enum_strategy() -> impl proptest::strategy::Strategy<Value = EnumCase> {
+    use crate::gate::Kcfg;
+    use proptest::prelude::*;
+    (crate::gen::tree_recipe(7), prop_oneof![2 => Just(Kcfg::NoMountApi), 3 => Just(Kcfg::NoOpenat2NoMountApi), 1 => Just(Kcfg::Full), 1 => Just(Kcfg::NoOpenat2)], any::<u8>(), any::<u16>(), any::<u16>(), prop_oneof![3 => Just(false), 1 => Just(true)]).prop_map(|(tr, kcfg, kind, sel, sel2, capi)| {
+        let tree = crate::gen::build_tree(&tr);
+        let step = crate::props::c10::success_step(&tree, kind, sel, sel2, capi);
+        EnumCase { w: WCase { tree, kcfg, no_symlinks: false, steps: vec![step] }, only: None }
+    })
+}
+
 fn faulted_strategy() -> impl proptest::strategy::Strategy<Value = FaultedCase> {
     use proptest::prelude::*;
     (wcase(4), any::<u16>(), 0usize..FAULT_ERRNOS.len()).prop_map(|(w, at, e)| FaultedCase { w, at, errno: FAULT_ERRNOS[e] })
@@ -427,9 +516,17 @@ fn run_lane(ctx: &Ctx, lr: &mut LaneResult) {
     if lr.violations.is_empty() {
         search_opts(ctx, lr, "discipline-under-faults", ctx.tier.pick(4000, 40000), faulted_strategy(), &check_faulted, 60);
     }
+    if lr.violations.is_empty() {
+        search_opts(ctx, lr, "discipline-under-enumerated-faults", ctx.tier.pick(96, 960), enum_strategy(), &check_enum, 4);
+    }
 }
 
 fn replay(_ctx: &Ctx, check_name: &str, case: &Value) -> Result<(), Fail> {
+    if check_name == "discipline-under-enumerated-faults" {
+        let case: EnumCase = serde_json::from_value(case.clone()).map_err(|e| Fail::Harness(format!("bad case: {}", e)))?;
+        let mut s = Stats::default();
+        return check_enum(&case, &mut s);
+    }
     if check_name == "discipline-under-faults" {
         let case: FaultedCase = serde_json::from_value(case.clone()).map_err(|e| Fail::Harness(format!("bad case: {}", e)))?;
         let mut s = Stats::default();
@@ -443,7 +540,7 @@ fn replay(_ctx: &Ctx, check_name: &str, case: &Value) -> Result<(), Fail> {
 pub const PROP: Prop = Prop {
     id: "C05",
     level: "exploration",
-    rule: "generated tree x sequence of 1-8 library calls (every Root operation through Rust and C API, Root::open, try_clone, resolve+reopen, ProcfsHandle open/open_follow/readlink and pathrs_proc_*) x resolver flags x six kernel configurations (openat2 / fsopen / open_tree answered ENOSYS by seccomp), first-use initialisation included; every system call the library thread makes inside a call is reported by a seccomp user-notification supervisor (number, dirfd and what it refers to by fstat+fstatfs, path bytes, flags, openat2 how) and judged by the discipline predicate (single component, never followed, RESOLVE masks, white-listed bootstrap shapes, close-on-exec requested and observed, O_NOCTTY, no legacy syscalls). A second driver repeats workloads of 1-4 calls with ONE system call (selected over the un-faulted trace) failing with EINTR / EAGAIN / ENOMEM / EMFILE / EIO / ENOSYS and judges the faulted execution by the same predicate (retries, fall-backs and clean-up are executions too). evaluations = judged syscalls; non-trivial = path-taking syscalls on the tree or on procfs; distinct by (syscall, flag word, path shape, operation, rule)",
+    rule: "generated tree x sequence of 1-8 library calls (every Root operation through Rust and C API, Root::open, try_clone, resolve+reopen, ProcfsHandle open/open_follow/readlink and pathrs_proc_*) x resolver flags x six kernel configurations (openat2 / fsopen / open_tree answered ENOSYS by seccomp), first-use initialisation included; every system call the library thread makes inside a call is reported by a seccomp user-notification supervisor (number, dirfd and what it refers to by fstat+fstatfs, path bytes, flags, openat2 how) and judged by the discipline predicate (single component, never followed, RESOLVE masks, white-listed bootstrap shapes, close-on-exec requested and observed, O_NOCTTY, no legacy syscalls). A second driver repeats workloads of 1-4 calls with ONE system call (selected over the un-faulted trace) failing with EINTR / EAGAIN / ENOMEM / EMFILE / EIO / ENOSYS and judges the faulted execution by the same predicate (retries, fall-backs and clean-up are executions too); a third driver takes one directed call that does work (remove_all, creations, mkdir_all, rename, reopen …) and fails EVERY system call of its trace in turn with EACCES / EINTR / ENOMEM / EMFILE (sample of 320 pairs when there are more). evaluations = judged syscalls; non-trivial = path-taking syscalls on the tree or on procfs; distinct by (syscall, flag word, path shape, operation, rule)",
     assumptions: &[
         "the seccomp filter table lists every path-taking and descriptor-creating syscall (legacy spellings included); a syscall outside the table would not be seen",
         "what a dirfd refers to is decided by the supervisor's own fstat/fstatfs of the shared descriptor table at the moment of the call",
